@@ -186,7 +186,13 @@ static void compare_dumps(const Dump& expect, const Dump& actual, const std::str
                     explained = true;
                     v.keys.insert(c.first);
                 }
-        if (!explained) v.fails.push_back(what + ": expected line missing: " + le.text);
+        if (!explained) {
+            v.fails.push_back(what + ": expected line missing: " + le.text);
+            if (getenv("C02_TRACE")) {
+                for (size_t k = 0; k < oa.size(); k++)
+                    if (!a_used[k]) v.fails.back() += " ## unmatched actual: " + a[oa[k]];
+            }
+        }
     }
     for (size_t k = 0; k < oa.size(); k++)
         if (!a_used[k]) v.fails.push_back(what + ": unexpected line: " + a[oa[k]]);
@@ -251,9 +257,31 @@ static void tolerance_substitution(const Library& ref, const Library& got, int64
         Cell* c = NULL;
         for (uint64_t i = 0; i < got.cell_array.count; i++)
             if (got.cell_array[i]->name && strcmp(rc->name, got.cell_array[i]->name) == 0) c = got.cell_array[i];
-        if (!c || c->polygon_array.count != rc->polygon_array.count) continue;
-        for (uint64_t i = 0; i < rc->polygon_array.count; i++) {
-            Polygon* po = rc->polygon_array[i];
+        // reference polygons: the cell's polygons followed by the outlines of its non-simple paths (the order of the file)
+        std::vector<Polygon*> refp, owned;
+        for (uint64_t i = 0; i < rc->polygon_array.count; i++) refp.push_back(rc->polygon_array[i]);
+        for (uint64_t i = 0; i < rc->flexpath_array.count; i++) {
+            if (rc->flexpath_array[i]->simple_path) continue;
+            Array<Polygon*> outl = {};
+            rc->flexpath_array[i]->to_polygons(false, 0, outl);
+            for (uint64_t k = 0; k < outl.count; k++) {
+                refp.push_back(outl[k]);
+                owned.push_back(outl[k]);
+            }
+            outl.clear();
+        }
+        struct Cleanup {
+            std::vector<Polygon*>& v;
+            ~Cleanup() {
+                for (Polygon* q : v) {
+                    q->clear();
+                    free_allocation(q);
+                }
+            }
+        } cleanup{owned};
+        if (!c || c->polygon_array.count != refp.size()) continue;
+        for (uint64_t i = 0; i < refp.size(); i++) {
+            Polygon* po = refp[i];
             Polygon* pg = c->polygon_array[i];
             std::vector<P2> eo = canon_cycle(grid_points(po->point_array, sr));
             if (eo == canon_cycle(grid_points(pg->point_array, sg))) continue;
@@ -275,7 +303,19 @@ static void tolerance_substitution(const Library& ref, const Library& got, int64
                     ymin = std::min(ymin, q.second); ymax = std::max(ymax, q.second);
                 }
                 double diag_user = hypot(xmax - xmin, ymax - ymin) / sr, tol_user = (double)tolgrid / sr;
-                if (far > 268435456.0) {
+                // distance of the original VERTICES alone from the re-created circle: is_circle tests the vertices (radius) and the
+                // edge lengths against a bound laxer than a chord of sagitta `tolerance`, never the edges themselves
+                double hv = 0;
+                for (auto& q : a) {
+                    double best = 1e300;
+                    for (size_t k = 0; k < bb.size(); k++)
+                        best = std::min(best, seg_dist(q.first, q.second, bb[k].first, bb[k].second, bb[(k + 1) % bb.size()].first, bb[(k + 1) % bb.size()].second));
+                    hv = std::max(hv, best);
+                }
+                if (hv <= T && far <= 268435456.0) {
+                    v.keys.insert("is_circle:edges-unchecked");
+                    v.notes.push_back(buf);
+                } else if (far > 268435456.0) {
                     // the least-squares fit of is_circle works on absolute coordinates: beyond ~2^28 grid steps from the
                     // origin the cancellation error of |p|^2 - |ref|^2 exceeds the grid
                     v.keys.insert("is_circle:far-from-origin");
